@@ -66,6 +66,9 @@ bool ops_map(Ctx& c, const json& s, int idx, bool& handled) {
 		auto img = Scen::expand(s["segs"]); Stream::MemoryReader r(img.data(), img.size()); Map m; bool err = false;
 		try { m = save ? Map::ReadSavedGame(r) : Map::ReadMap(r); } catch (const std::exception&) { err = true; }
 		if (must == "refuse" && !err) { Proto::mismatch(fsite, "accepted-should-refuse", where("a truncated file was read as a smaller success (" + std::to_string(img.size()) + " bytes)")); return false; }
+		if (must == "refuse") { const std::string pth = via_path("prefix.bin"); Scen::spit(pth, img); bool fileErr = false;      // ... also when the same bytes are offered as a file
+			try { if (save) (void)Map::ReadSavedGame(pth); else (void)Map::ReadMap(pth); } catch (const std::exception&) { fileErr = true; }
+			if (!fileErr) { Proto::mismatch(fsite, "accepted-should-refuse", where("a truncated file was read as a smaller success from a FILE (" + std::to_string(img.size()) + " bytes)")); return false; } }
 		if (must == "accept" && err) { Proto::mismatch(fsite, "refused-should-accept", where("")); return false; }
 		if (!err) { const unsigned long long w = m.WidthInTiles(), h = m.HeightInTiles();
 			if (w == 0 || (w & (w - 1)) != 0) { Proto::mismatch(fsite, "width-not-a-power-of-two", where("width " + std::to_string(w))); return false; }
